@@ -30,6 +30,10 @@ def patterns(lang, kind, name):
             return r"\bdef\s+%s\s*=" % n
         if lang == "java":
             return r"\bvar\s+%s\s*=" % n
+    if kind == "closure_untyped" and lang == "groovy":
+        return r"\bdef\s+%s\s*=\s*\{" % n
+    if kind == "closure_typed" and lang == "groovy":
+        return r"\bClosure<[^\n]*>\s+%s\s*=\s*\{" % n
     if kind == "new_inferred":
         if lang == "kotlin":
             return r"(?<![\w.])%s\s*\(" % n
